@@ -226,7 +226,45 @@ func c17Grammar() []*c17Req {
 
 var c17States = []string{"empty", "small", "mappings"}
 
+// c17Writes: write requests that precede the reads in the "after a write" states (state name "<base>+<write>").
+// What the write itself changes is its own business; the reads that follow must change nothing. Successful and
+// failing writes, and writes that map names without storing a relationship.
+var c17Writes = []struct {
+	Name string
+	Do   func(c *apih.Client)
+}{
+	{"put-never-seen", func(c *apih.Client) { c.Create(axID("n1", "wObj1", "r", "wSub1")) }},
+	{"put-unknown-namespace", func(c *apih.Client) { c.Create(axID("zz", "wObj2", "r", "wSub2")) }},
+	{"put-no-subject", func(c *apih.Client) { c.CreateRaw([]byte(`{"namespace":"n1","object":"wObj3","relation":"r"}`)) }},
+	{"patch-delete-of-a-relationship-that-never-existed", func(c *apih.Client) {
+		c.Patch([]*ketoapi.PatchDelta{{Action: ketoapi.ActionDelete, RelationTuple: axID("n1", "wObj4", "r", "wSub4")}})
+	}},
+	{"patch-insert-then-unknown-namespace", func(c *apih.Client) {
+		c.Patch([]*ketoapi.PatchDelta{{Action: ketoapi.ActionInsert, RelationTuple: axID("n1", "wObj5", "r", "wSub5")}, {Action: ketoapi.ActionInsert, RelationTuple: axID("zz", "wObj6", "r", "wSub6")}})
+	}},
+	{"grpc-transact-delete-of-a-relationship-that-never-existed", func(c *apih.Client) {
+		_, _ = c.GTransact([]*rts.RelationTupleDelta{axDelta(rts.RelationTupleDelta_ACTION_DELETE, axSet("n1", "wObj7", "r", "n1", "wGrp7", "m"))})
+	}},
+	{"grpc-transact-insert-then-unknown-namespace", func(c *apih.Client) {
+		_, _ = c.GTransact([]*rts.RelationTupleDelta{axDelta(rts.RelationTupleDelta_ACTION_INSERT, axID("n1", "wObj8", "r", "wSub8")), axDelta(rts.RelationTupleDelta_ACTION_INSERT, axID("zz", "wObj9", "r", "wSub9"))})
+	}},
+	{"delete-by-query-matching-nothing", func(c *apih.Client) {
+		c.DeleteQuery(&ketoapi.RelationQuery{Namespace: axS("n1"), Object: axS("wObj10")})
+	}},
+}
+
 func c17Build(s *apih.Server, state string) {
+	if i := strings.Index(state, "+"); i > 0 {
+		c17Build(s, state[:i])
+		for _, w := range c17Writes {
+			if w.Name == state[i+1:] {
+				w.Do(s.Client())
+				s.Settle()
+				return
+			}
+		}
+		panic("c17: unknown write " + state)
+	}
 	s.TruncateAll()
 	c := s.Client()
 	if state == "empty" {
@@ -421,6 +459,16 @@ func TestC17(t *testing.T) {
 			}
 		}
 	}
+	// after a write: every base state followed by one write request of c17Writes, then every single read request
+	afterWrite := 0
+	for _, st := range []string{"small", "mappings"} {
+		for _, w := range c17Writes {
+			for i := range reqs {
+				jobs = append(jobs, job{st + "+" + w.Name, []int{i}})
+				afterWrite++
+			}
+		}
+	}
 	// thorough: additionally every sequence of length 3 over one representative
 	// request per (kind, transport) that mentions never-seen names where possible
 	len3 := 0
@@ -519,6 +567,7 @@ func TestC17(t *testing.T) {
 		"a REST batch check with a null element and gRPC requests with an absent subject crash the handler (C13's finding) and are not part of this grammar; the process-killing null batch element could not be enumerated in-process",
 		"statement classification: SELECT / EXPLAIN / read-only PRAGMA / WITH..SELECT are reads; BEGIN/COMMIT/ROLLBACK are neutral; everything else is a write",
 		"write-route requests sent to the read and syntax ports are part of the grammar: they must not be served there",
+		"'after a write' states: the write request itself (successful, failing, or mapping names without storing anything) is part of building the state; only the reads that follow are judged",
 	)
 	run.Sample(map[string]any{"state": "mappings", "requests": []string{reqs[3].Name, reqs[len(reqs)-1].Name}})
 	run.Sample(map[string]any{"state": "empty", "requests": []string{reqs[10].Name}})
@@ -536,6 +585,8 @@ func TestC17(t *testing.T) {
 		"sequences_len1":           len(c17States) * len(reqs),
 		"sequences_len2":           len(c17States) * len(reqs) * len(reqs),
 		"all_pairs":                pairsAll,
+		"sequences_after_a_write":  afterWrite,
+		"write_preludes":           len(c17Writes),
 		"requests":                 int(requests.Load()),
 		"sequences_reaching_db":    int(reachDB.Load()),
 		"sql_statements_monitored": int(statements.Load()),
